@@ -11,6 +11,7 @@ import (
 	abcitypes "github.com/tendermint/tendermint/abci/types"
 	"pgregory.net/rapid"
 
+	"github.com/shutter-network/rolling-shutter/rolling-shutter/shmsg"
 	"verif/harness/apphist"
 )
 
@@ -277,4 +278,112 @@ func TestC11_ModelWalks(t *testing.T) {
 	rec := recorder("C11")
 	rec.AddRule("random walks: apphist histories (see C09) on one replica compared call by call with an independent governance model (response class and decoded events) plus invariants computed from transactions and responses alone (threshold of identical votes by current keypers, monotone index/activation, one vote per round, (sender,nonce) once, fresh increasing eons, restart only for newest eon with threshold failure votes, config start only with block-seen quorum of preceding config); non-trivial = history with a vote split, a replay, or a restart; distinct by history string")
 	runRapid(t, N(600, 30000), func(rt *rapid.T) { runC11History(rt, rec, 60) })
+}
+
+// TestC11_BFS enumerates every sequence over a fixed alphabet of pre-signed
+// transactions (plus "end block") up to a depth bound, each executed on a
+// fresh application with the model and invariant oracles.
+func TestC11_BFS(t *testing.T) {
+	rec := recorder("C11")
+	depth := 3
+	if thorough() {
+		depth = 4
+	}
+	rec.AddRule(fmt.Sprintf("bounded exhaustive: all sequences of length <= %d over the alphabet {3 genesis keypers + 1 foreign key} x {vote config A(idx 1, t=1), vote config B(idx 2, other keypers), block-seen at B's activation, DKG result true/false for eon 1 and eon 2, check-in} plus end-of-block, with fixed nonces (a repeated symbol is a replay); genesis t=2", depth))
+	g := Genesis{Keypers: []int{0, 1, 2}, Threshold: 2, Validators: []int{10}}
+	type sym struct {
+		tx  []byte
+		tag string
+	}
+	var alpha []sym
+	cfgA := shmsgBatchConfig(0, []int{0, 1, 2}, 1, 1)
+	cfgB := shmsgBatchConfig(5, []int{0, 3}, 1, 2)
+	nonce := uint64(100)
+	for _, s := range []int{0, 1, 2, 5} {
+		add := func(m *shmsg.Message, tag string) {
+			nonce++
+			alpha = append(alpha, sym{uni.MakeTx(s, apphist.ChainID, nonce, m), fmt.Sprintf("s%d/%s", s, tag)})
+		}
+		add(cfgA, "voteA")
+		add(cfgB, "voteB")
+		add(shmsg.NewBlockSeen(5), "seen5")
+		add(shmsg.NewDKGResult(1, true), "res(1,T)")
+		add(shmsg.NewDKGResult(1, false), "res(1,F)")
+		add(shmsg.NewDKGResult(2, true), "res(2,T)")
+		add(shmsg.NewDKGResult(2, false), "res(2,F)")
+		add(shmsg.NewCheckIn(uni.ValKeys[2*s], mustECIES(uni.EncKeys[s])), "checkin")
+	}
+	alpha = append(alpha, sym{nil, "E"})
+	k := len(alpha)
+	total := 0
+	var path []int
+	var failed bool
+	var run func(d int)
+	execPath := func(path []int) {
+		total++
+		if !mySlice(total) {
+			return
+		}
+		var failSig, failMsg string
+		c := NewChain(g, 1, func(sig, f string, a ...any) {
+			if failSig == "" {
+				failSig, failMsg = sig, fmt.Sprintf(f, a...)
+			}
+		})
+		c.CheckModel = true
+		inv := newGovInvariants(c)
+		c.OnDeliver, c.OnEndBlock = inv.onDeliver, inv.onEndBlock
+		for _, i := range path {
+			if failSig != "" {
+				break
+			}
+			if alpha[i].tx == nil {
+				c.EndBlock()
+			} else {
+				c.DeliverTx(alpha[i].tx, alpha[i].tag)
+			}
+		}
+		if failSig == "" {
+			c.EndBlock()
+		}
+		if failSig != "" {
+			p := rec.SaveReplay(t.Name(), fmt.Sprintf("bfs-%d", total), map[string]any{"path": path, "history": c.DescString()})
+			rec.Violation(failSig, failMsg, p)
+			t.Errorf("VERIF-FAIL signature=%s :: %s", failSig, failMsg)
+			failed = true
+			return
+		}
+		nt := c.M.VoteSplits > 0 || c.M.Replays > 0 || c.M.Restarts > 0
+		rec.Case(c.DescString(), nt, "bfs")
+	}
+	run = func(d int) {
+		if failed {
+			return
+		}
+		if len(path) > 0 {
+			execPath(path)
+		}
+		if d == 0 {
+			return
+		}
+		for i := 0; i < k; i++ {
+			path = append(path, i)
+			run(d - 1)
+			path = path[:len(path)-1]
+		}
+	}
+	run(depth)
+	if !failed {
+		rec.Exhaustive()
+		rec.SetExtra("bfs_depth", depth)
+		rec.SetExtra("bfs_alphabet", k)
+	}
+}
+
+func shmsgBatchConfig(act uint64, keypers []int, th, idx uint64) *shmsg.Message {
+	var as []common.Address
+	for _, i := range keypers {
+		as = append(as, uni.Addrs[i])
+	}
+	return shmsg.NewBatchConfig(act, as, th, idx)
 }
